@@ -79,11 +79,6 @@ theorem mapKernel_hom {g : Row → Option Row} (hg : IntervalPreserving g) (out 
   · simp only [mapKernel, List.map_cons, List.map_nil, List.cons.injEq, and_true]
     rw [rows_perChunk, rows_eq_flatten, ← flatMap_filterMap, List.flatMap_map]
 
-theorem mapKernel_total (g : Row → Option Row) (out : String) : (mapKernel g out).Total := by
-  intro R ins hl _
-  obtain ⟨s, rfl⟩ := List.length_eq_one_iff.mp hl
-  exact ⟨_, rfl⟩
-
 /-! ### same-kind merge -/
 
 theorem zipWith_interval {h : Row → Row → Row} (hh : KeepsFirstInterval h) :
@@ -167,6 +162,31 @@ theorem mergeKernel_hom {h : Row → Row → Row} (hh : KeepsFirstInterval h) (o
     refine ⟨rfl, streamsOK_single.2 ⟨?_, ?_⟩, by simp [mergeKernel, z2]⟩
     · exact lawAbiding_of z3 (by rw [adjacentB_of_bounds z1]; exact ha.adjacent)
     · rw [span_of_bounds z1]; exact hsa
+
+/-- a two-kind plugin that computes row-wise on its first dependency (`pairfirst` of the harness; the
+second dependency only takes part in the alignment) -/
+def firstKernel (g : Row → Option Row) (out : String) : Kernel where
+  nIn := 2
+  nOut := 1
+  chunked
+    | [a, _] => .ok [perChunk (List.filterMap g) out a]
+    | _ => .error .other
+  whole
+    | [r, _] => [r.filterMap g]
+    | _ => []
+
+theorem firstKernel_hom {g : Row → Option Row} (hg : IntervalPreserving g) (out : String) :
+    ChunkHom (firstKernel g out) := by
+  intro R ins outs hl hal h
+  obtain ⟨a, b, rfl⟩ := length_two hl
+  simp only [firstKernel, Except.ok.injEq] at h
+  subst h
+  obtain ⟨hs, hsp⟩ := hal.1 a (by simp)
+  refine ⟨rfl, streamsOK_single.2 ⟨?_, ?_⟩, ?_⟩
+  · exact lawAbiding_perChunk (fun c hc => chunkOK_filterMap hg out c hc) hs
+  · rw [span_perChunk]; exact hsp
+  · simp only [firstKernel, List.map_cons, List.map_nil, List.cons.injEq, and_true]
+    rw [rows_perChunk, rows_eq_flatten, ← flatMap_filterMap, List.flatMap_map]
 
 /-! ### multi-output -/
 
